@@ -2,6 +2,7 @@
 
 use crate::core::*;
 use crate::ensure;
+use crate::gen::boxes::UB;
 use crate::gen::scenes::*;
 use crate::props::c04::same_up_to_ids;
 use crate::props::trkmon::{call_margin, same_box, MARGIN};
@@ -27,6 +28,10 @@ pub struct BatchCase {
     /// 0: drop the tracker after the last batch was drained; 1: submit one more batch, drop its
     /// result handle undrained, then drop the tracker
     pub drop_mode: u8,
+    /// period of the internal collection of expired tracks set on both trackers before the first
+    /// batch (None: the default of 100 calls, which these short histories never reach)
+    #[serde(default)]
+    pub auto_waste: Option<usize>,
 }
 
 fn as_history(c: &BatchCase) -> History {
@@ -58,6 +63,9 @@ pub fn check_batches(c: &BatchCase) -> CaseResult {
     let mut simple_cfg = cfg.clone();
     simple_cfg.kind = cfg.kind.simple();
     let mut simple = Tracker::new(&simple_cfg);
+    if let Some(p) = c.auto_waste {
+        simple.set_auto_waste(p);
+    }
     let mut ref_records: BTreeMap<u64, Vec<Vec<Rec>>> = BTreeMap::new();
     let mut ref_margins: BTreeMap<u64, Vec<f64>> = BTreeMap::new();
     let mut epochs: BTreeMap<u64, usize> = BTreeMap::new();
@@ -73,6 +81,9 @@ pub fn check_batches(c: &BatchCase) -> CaseResult {
     drop(simple);
     // the batch tracker under a schedule plan
     let mut tr = Tracker::new(cfg);
+    if let Some(p) = c.auto_waste {
+        tr.set_auto_waste(p);
+    }
     let mut got: BTreeMap<u64, Vec<Vec<Rec>>> = BTreeMap::new();
     let mut issued: BTreeSet<u64> = BTreeSet::new();
     let mut live: BTreeSet<u64> = BTreeSet::new();
@@ -293,6 +304,7 @@ pub fn check_batches(c: &BatchCase) -> CaseResult {
         .label_if(achieved, "ordering_plan_achieved")
         .label_if(cut_calls > 0, "cut_at_fragile_call")
         .label_if(pipelined > 0, "pipelined_batches")
+        .label_if(c.auto_waste.is_some() && pipelined > 0, "collection_during_pipelining")
         .label_if(c.drop_mode == 1, "dropped_with_abandoned_result"))
 }
 
@@ -305,8 +317,9 @@ pub fn batch_case(kind: Kind) -> impl Strategy<Value = BatchCase> {
         proptest::collection::vec((0u8..6, 0u8..12, 0u16..3000), 0..5),
         proptest::bool::weighted(0.8),
         0u8..2,
+        prop_oneof![2 => Just(None), 1 => Just(Some(0usize)), 1 => Just(Some(1usize)), 1 => Just(Some(2usize))],
     )
-        .prop_map(|(h, nscenes, raw, choices, delays, controlled, drop_mode)| {
+        .prop_map(|(h, nscenes, raw, choices, delays, controlled, drop_mode, auto_waste)| {
             let scene_ids = [0u64, 7, 1_000_000_007, 3, 42];
             let mut clock = [0u16; 5];
             let mut uniq = 0u32;
@@ -338,8 +351,63 @@ pub fn batch_case(kind: Kind) -> impl Strategy<Value = BatchCase> {
                 batches.push(b);
                 drain_thread.push(dt);
             }
-            BatchCase { cfg: h.cfg, objs: h.objs, feat_dim: h.feat_dim, batches, drain_thread, choices, delays, controlled, drop_mode }
+            BatchCase { cfg: h.cfg, objs: h.objs, feat_dim: h.feat_dim, batches, drain_thread, choices, delays, controlled, drop_mode, auto_waste }
         })
+}
+
+/// Many scenes per batch, every detection opening a new track: the voting threads allocate track
+/// ids concurrently for the whole run.
+#[derive(Clone, Debug, Serialize, Deserialize)]
+pub struct StressCase {
+    pub kind: Kind,
+    pub shards: usize,
+    pub voting_shards: usize,
+    pub scenes: usize,
+    pub dets: usize,
+    pub batches: usize,
+    /// per detection jitter source
+    pub salt: u32,
+}
+
+pub fn stress_case() -> impl Strategy<Value = StressCase> {
+    (prop_oneof![3 => Just(Kind::BatchSort), 1 => Just(Kind::BatchVisualSort)], 1usize..=4, 2usize..=6, 4usize..=16, 4usize..=24, 10usize..=40, any::<u32>())
+        .prop_map(|(kind, shards, voting_shards, scenes, dets, batches, salt)| StressCase { kind, shards, voting_shards, scenes, dets, batches, salt })
+}
+
+pub fn check_stress(c: &StressCase) -> CaseResult {
+    let cfg = Cfg { kind: c.kind, shards: c.shards, voting_shards: c.voting_shards, history: 2, max_idle: 0, pos: crate::trk::Pos::IoU(0.3), min_conf: 0.05, constraints: None, wp: 0.05, wv: 0.00625, vis: Default::default() };
+    let mut tr = Tracker::new(&cfg);
+    // expired tracks are collected on every call: the store stays small
+    tr.set_auto_waste(0);
+    let mut issued: BTreeSet<u64> = BTreeSet::new();
+    let mut allocations = 0usize;
+    for b in 0..c.batches {
+        // disjoint boxes on a grid; every batch uses a fresh region, so no detection overlaps any
+        // earlier track and each one opens a new track
+        let mut batch = vec![];
+        for s in 0..c.scenes {
+            let mut dets = vec![];
+            for d in 0..c.dets {
+                let j = ((c.salt as usize).wrapping_mul(31).wrapping_add(b * 7919 + s * 104729 + d * 1299709) % 1000) as f32 / 100.0;
+                dets.push(Det { b: UB { xc: 100.0 * d as f32 + j, yc: 200.0 * b as f32 + j, angle: None, aspect: 1.0, height: 20.0, conf: 1.0 }, custom: Some((b * 1_000_000 + s * 1000 + d) as i64), feat: None, q: None });
+            }
+            batch.push((s as u64 * 3 + 1, dets));
+        }
+        let results = tr.predict_batch(&batch, b % 2 == 1);
+        ensure!(results.len() == batch.len(), "batch-result-count", "batch {}: {} results for {} scenes", b, results.len(), batch.len());
+        let mut scenes_seen = BTreeSet::new();
+        for (scene, recs) in &results {
+            ensure!(scenes_seen.insert(*scene), "batch-scene-twice", "batch {}: two results for scene {}", b, scene);
+            ensure!(recs.len() == c.dets, "batch-record-count", "batch {} scene {}: {} records for {} detections", b, scene, recs.len(), c.dets);
+            for r in recs {
+                ensure!(r.length == 1, "batch-refinement-differential-record", "batch {} scene {}: a detection that overlaps no earlier track continues track {} (length {})", b, scene, r.id, r.length);
+                ensure!(issued.insert(r.id), "batch-id-reused", "batch {} scene {}: new track gets id {} which was issued before", b, scene, r.id);
+                allocations += 1;
+            }
+        }
+    }
+    drop(tr);
+    Ok(CaseOk::new(c.voting_shards >= 2 && c.scenes >= 2 && allocations >= 100).label(c.kind.name()).label_if(allocations >= 5000, "5000_or_more_new_tracks"))
 }
 
 pub fn run(env: &Env, rep: &Report) {
@@ -367,11 +435,30 @@ pub fn run(env: &Env, rep: &Report) {
     for kind in [Kind::BatchSort, Kind::BatchVisualSort] {
         par_generated(rep, "batches", move || batch_case(kind), n, workers(), &check);
     }
+    // concurrent creation of new tracks by all voting threads (fresh ids, one result per scene, completion)
+    let spool = IsoPool::new(&env.prop, "id-stress", std::time::Duration::from_secs(120));
+    let scheck = |c: &StressCase| -> CaseResult {
+        match spool.eval(c) {
+            Err(f) if f.signature.starts_with("hang@") => {
+                let pool2 = IsoPool::new(&env.prop, "id-stress", std::time::Duration::from_secs(120));
+                match pool2.eval(c) {
+                    Err(f2) if f2.signature.starts_with("hang@") => Err(Fail::new("deadlock@batch", format!("the case did not complete within 120 s in two fresh processes: {}", f2.msg))),
+                    _ => {
+                        rep.mark_inconclusive(format!("a case timed out once and completed on re-run: {}", f.msg));
+                        Ok(CaseOk::trivial().label("hang_inconclusive"))
+                    }
+                }
+            }
+            r => r,
+        }
+    };
+    par_generated(rep, "id-stress", stress_case, env.tier.pick(160, 2_400), workers(), &scheck);
 }
 
 pub fn replay(sub: &str, case: Value) -> Option<CaseResult> {
     match sub {
         "batches" => Some(replay_case(case, check_batches, sub)),
+        "id-stress" => Some(replay_case(case, check_stress, sub)),
         _ => None,
     }
 }
